@@ -68,6 +68,23 @@ MUTANTS: List[Dict[str, Any]] = [
     M("c05-ipnet-try-encloses-check", ["C05"], E("wildcard.py", "Wildcard.line.setter", "        ncwb, prefixlen = self._create_ncwb(wildmask_o)\n", "        try:\n            ncwb, prefixlen = self._create_ncwb(wildmask_o)\n        except ValueError:\n            ncwb, prefixlen = [], 32\n"), "re-raising"),
     M("c05-setter-partial-path", ["C05"], E("wildcard.py", "Wildcard.line.setter", "        self._ncwb = ncwb\n", "        if ipnet is not None:\n            return\n        self._ncwb = ncwb\n"), "previous line"),
     M("c05-max_ncwb-second-writer", ["C05"], E("wildcard.py", "Wildcard.__init__", "        self.max_ncwb: int = init_max_ncwb(**kwargs)\n", "        self.max_ncwb: int = init_max_ncwb(**kwargs)\n        self._max_ncwb = kwargs.get(\"max_ncwb\") or 16\n"), "one writer"),
+    # ------------------------------------------------------------------ C10
+    M("c10-decorator-removed", ["C10"], E("addr_group.py", "AddrGroup.resequence", "    @h.check_start_step_sequence\n", ""), "AddrGroup.resequence"),
+    M("c10-start-upper-off-by-one", ["C10"], E("helpers.py", "check_start_step_sequence", "if not 0 <= start <= SEQUENCE_MAX:", "if not 0 <= start < SEQUENCE_MAX:"), "accepted start"),
+    M("c10-start-negative-ok", ["C10"], E("helpers.py", "check_start_step_sequence", "if not 0 <= start <= SEQUENCE_MAX:", "if start > SEQUENCE_MAX:"), "accepted start"),
+    M("c10-step-zero-ok", ["C10"], E("helpers.py", "check_start_step_sequence", "if start and step < 1:", "if start and step < 0:"), "step"),
+    M("c10-result-ge", ["C10"], E("helpers.py", "check_start_step_sequence", "if sequence > SEQUENCE_MAX:", "if sequence >= SEQUENCE_MAX:"), "accepted result"),
+    M("c10-result-check-dropped", ["C10"], E("helpers.py", "check_start_step_sequence", "        if sequence > SEQUENCE_MAX:\n            raise ValueError(f\"last {sequence=} expected=1..{SEQUENCE_MAX}\")\n", ""), "result"),
+    M("c10-seqmax-wrong", ["C10"], E("helpers.py", "<module>", "SEQUENCE_MAX = 4294967295", "SEQUENCE_MAX = 4294967296"), "accepted"),
+    M("c10-step-not-forced", ["C10"], E("helpers.py", "check_start_step_sequence", "        if not start:\n            step = 0\n", ""), "start == 0"),
+    M("c10-args-swapped", ["C10"], E("helpers.py", "check_start_step_sequence", "sequence = method(ace_o, start, step, **kwargs)", "sequence = method(ace_o, step, start, **kwargs)"), "unchanged"),
+    M("c10-clears-note", ["C10", "C16"], E("ace_group.py", "AceGroup.resequence", "            item.sequence = sequence\n", "            item.sequence = sequence\n            item.note = \"\"\n"), "nothing but sequence"),
+    M("c10-increment-unconditional", ["C10"], E("ace_group.py", "AceGroup.resequence", "            if id_ < count:\n                sequence += step\n", "            sequence += step\n"), "increment"),
+    M("c10-increment-le", ["C10"], E("addr_group.py", "AddrGroup.resequence", "            if id_ < count:\n", "            if id_ <= count:\n"), "increment"),
+    M("c10-no-descent", ["C10"], E("ace_group.py", "AceGroup.resequence", "            if isinstance(item, AceGroup):\n                params = dict(items=item.items)\n                sequence = self.resequence(start=sequence, step=step, **params)\n", ""), "nested groups"),
+    M("c10-descent-result-dropped", ["C10"], E("ace_group.py", "AceGroup.resequence", "sequence = self.resequence(start=sequence, step=step, **params)", "self.resequence(start=sequence, step=step, **params)"), "descent"),
+    M("c10-reversed-order", ["C10"], E("addr_group.py", "AddrGroup.resequence", "for id_, item in enumerate(items, start=1):", "for id_, item in enumerate(reversed(items), start=1):"), "order"),
+    M("c10-returns-start", ["C10"], E("addr_group.py", "AddrGroup.resequence", "        return sequence\n", "        return int(start)\n"), "running number"),
     # ------------------------------------------------------------------ C08
     M("c08-lt-interior (revert F2)", ["C08"], E("port.py", "Port._ports_to_items", "return [ports[-1] + 1] if ports else [1]", "return [ports[1] + 1] if ports else [1]"), "interior"),
     M("c08-lt-low-end", ["C08"], E("port.py", "Port._ports_to_items", "return [ports[-1] + 1] if ports else [1]", "return [ports[0] + 1] if ports else [1]"), "_ports_to_items"),
@@ -104,6 +121,9 @@ MUTANTS: List[Dict[str, Any]] = [
 
 
 TWINS: List[Dict[str, Any]] = [
+    {"id": "twin-wrapper-two-guards", "edits": [E("helpers.py", "check_start_step_sequence", "        if not 0 <= start <= SEQUENCE_MAX:\n            raise ValueError(f\"{start=} expected=0..{SEQUENCE_MAX}\")\n", "        if start < 0:\n            raise ValueError(f\"{start=} expected=0..{SEQUENCE_MAX}\")\n        if start >= SEQUENCE_MAX + 1:\n            raise ValueError(f\"{start=} expected=0..{SEQUENCE_MAX}\")\n")]},
+    {"id": "twin-wrapper-step-le-zero", "edits": [E("helpers.py", "check_start_step_sequence", "if start and step < 1:", "if start and step <= 0:")]},
+    {"id": "twin-reseq-ne-count", "edits": [E("addr_group.py", "AddrGroup.resequence", "            if id_ < count:\n", "            if id_ != count:\n")]},
     {"id": "twin-wildcard-limit-flipped", "edits": [E("wildcard.py", "Wildcard._ncw_bits", "if count > self.max_ncwb:", "if self.max_ncwb < count:")]},
     {"id": "twin-wildcard-no-memo", "edits": [E("wildcard.py", "Wildcard.ipnets", "        if self._ipnets:\n            return self._ipnets\n", ""), E("wildcard.py", "Wildcard.ipnets", "        self._ipnets = ipnets\n", "")]},
     {"id": "twin-max-ncwb-two-ifs", "edits": [E("wildcard.py", "init_max_ncwb", "    if not 0 <= max_ncwb <= MAX_NCWB:\n        raise ValueError(f\"invalid {max_ncwb=}, allowed in range 0..{MAX_NCWB}\")\n", "    if max_ncwb < 0:\n        raise ValueError(f\"invalid {max_ncwb=}, allowed in range 0..{MAX_NCWB}\")\n    if max_ncwb > MAX_NCWB:\n        raise ValueError(f\"invalid {max_ncwb=}, allowed in range 0..{MAX_NCWB}\")\n")]},
